@@ -1,0 +1,18 @@
+//go:build verif
+
+// Contracts read by /verif/govc (comment-only; never compiled into the node).
+
+package telemetry
+
+//@ func EncodeNatural
+//@   props C12
+//@   spec nat.smt2
+//@   ensures [cases spec.nat_l(v) 0..8] canonical: len(result) == int(spec.nat_len(v)) && forall(i, 0, 9, i < len(result) ==> result[i] == spec.nat_byte(v, uint64(i)))
+
+//@ func (*Decoder).ReadNatural
+//@   props C12
+//@   spec nat.smt2
+//@   requires wf: d != nil && 0 <= d.pos && d.pos <= len(d.data)
+//@   ensures [cases spec.nat_l(result0) 0..8] strict: result1 == nil ==> d.pos == old(d.pos) + int(spec.nat_len(result0)) && d.pos <= len(d.data) && forall(i, 0, 9, i < int(spec.nat_len(result0)) ==> d.data[old(d.pos)+i] == spec.nat_byte(result0, uint64(i)))
+//@   ghost x uint64
+//@   ensures [cases spec.nat_l(x) 0..8] complete: (len(d.data) - old(d.pos) >= int(spec.nat_len(x)) && forall(i, 0, 9, i < int(spec.nat_len(x)) ==> d.data[old(d.pos)+i] == spec.nat_byte(x, uint64(i)))) ==> (result1 == nil && result0 == x)
